@@ -1,4 +1,6 @@
 import Sx.Lemmas.Safe
+import Sx.Lemmas.SafePost
+import Sx.Lemmas.RxLen
 import Sx.Sys
 import Sx.Lemmas.Mem
 /-
@@ -23,9 +25,17 @@ instance (u : UB) : Decidable (memBad u) := by unfold memBad; exact inferInstanc
 /-- what every API call relies on and re-establishes: the packet buffer has its size, and a
     registered frequency list has at least `frequencies_length ≥ 1` entries -/
 def HInv (cap : Nat) (h : Handle) : Prop :=
-  h.packet.length = cap ∧ ∀ l, h.freqs = some l → 1 ≤ h.freqLen.toNat ∧ h.freqLen.toNat ≤ l.length
+  h.packet.length = cap ∧ (∀ l, h.freqs = some l → 1 ≤ h.freqLen.toNat ∧ h.freqLen.toNat ≤ l.length)
+    ∧ h.received.toNat ≤ cap
 
-abbrev SafeM (cap : Nat) (x : DM α) : Prop := SafeI memBad (HInv cap) x
+/-- what the driver may hand to a callback: the length of a receive callback is within the packet
+    buffer, and the bytes it announces are there (`data` is `packet[0..len)` cut at the buffer's
+    end, so `data.length = len` says that nothing was cut) -/
+def CbLen (cap : Nat) : CbEvent → Prop
+  | .rx d n => n ≤ cap ∧ d.length = n
+  | _ => True
+
+abbrev SafeM (cap : Nat) (x : DM α) : Prop := SafeI memBad (CbLen cap) (HInv cap) x
 
 variable {cap : Nat}
 
@@ -62,23 +72,34 @@ theorem s_header : SafeM cap readPayloadHeader := by
   unfold readPayloadHeader
   repeat (first | exact s_fixedLen | exact s_addrFilt | safe_step | safe_mod | (apply DM.SafeI_ite <;> intro _) | split | dsimp only)
 
+theorem u16_add_toNat_le (a b : UInt16) : (a + b).toNat ≤ a.toNat + b.toNat := by
+  rw [UInt16.toNat_add]; exact Nat.mod_le _ _
+
 theorem s_drainLoop (fuel : Nat) : SafeM cap (drainLoop fuel) := by
   induction fuel with
   | zero => unfold drainLoop; safe_ubx
   | succ n ih =>
     unfold drainLoop
-    apply SafeI_getH_bind; intro h hh
-    apply SafeI_ite
-    · intro _; exact SafeI_fail _
+    constructor
+    intro h hh
+    rw [Safe_at_getH_bind]
+    apply Safe_at_ite
+    · intro _; exact (Safe_at_fail _ _).mpr hh
     · intro hlt
-      have hidx : h.received.toNat < cap := by rw [← hh.1]; omega
-      apply SafeI_bind (SafeI_rread _); intro v
-      apply SafeI_bind (s_packetStore _ _ hidx); intro _
-      apply SafeI_bind (by safe_mod); intro _
-      apply SafeI_bind (SafeI_rread _); intro irq
-      apply SafeI_ite
-      · intro _; exact ih
-      · intro _; exact SafeI_pure _
+      have hidx : h.received.toNat < h.packet.length := by omega
+      apply Safe_at_rread_bind _ _ _ hh; intro v
+      apply Safe_at_packetStore_bind _ _ _ _ hidx
+      rw [Safe_at_modH_bind]
+      have hh' : HInv cap { h with packet := h.packet.wr h.received.toNat v, received := h.received + 1 } := by
+        refine ⟨by simp [Mem.wr, hh.1], hh.2.1, ?_⟩
+        have := u16_add_toNat_le h.received 1
+        have h1 : (1 : UInt16).toNat = 1 := rfl
+        show (h.received + 1).toNat ≤ cap
+        rw [← hh.1]; omega
+      apply Safe_at_rread_bind _ _ _ hh'; intro irq
+      apply Safe_at_ite
+      · intro _; exact ih.s _ hh'
+      · intro _; exact (Safe_at_pure _ _).mpr hh'
 
 theorem s_batch (fuel : Nat) (b : Bool) : SafeM cap (fskOokReadPayloadBatch fuel b) := by
   unfold fskOokReadPayloadBatch
@@ -87,50 +108,116 @@ theorem s_batch (fuel : Nat) (b : Bool) : SafeM cap (fskOokReadPayloadBatch fuel
   | none => exact SafeI_pure _
   | some consumed =>
     dsimp only
-    apply SafeI_getH_bind; intro h hh
-    apply SafeI_ite
-    · intro _; exact SafeI_pure _
+    constructor
+    intro h hh
+    rw [Safe_at_getH_bind]
+    apply Safe_at_ite
+    · intro _; exact (Safe_at_pure _ _).mpr hh
     · intro _
-      apply SafeI_ite
-      · intro _; exact SafeI_fail _
+      apply Safe_at_ite
+      · intro _; exact (Safe_at_fail _ _).mpr hh
       · intro hfit
         have hfit' : h.expected.toNat ≤ cap := by rw [← hh.1]; omega
-        apply SafeI_ite
+        apply Safe_at_ite
         · intro _
-          apply SafeI_ite
+          apply Safe_at_ite
           · intro hb
             have hroom : h.received.toNat + (Gen.HALF_MAX_FIFO_THRESHOLD - 1) ≤ cap := by omega
             rw [if_pos (by rw [hh.1]; exact hroom)]
-            apply SafeI_bread_bind; intro d hd
-            apply SafeI_bind (s_packetCopy _ _ (by rw [hd]; exact hroom)); intro _
-            safe_mod
-          · intro _; exact SafeI_pure _
+            apply Safe_at_bread_bind _ _ _ _ hh; intro d hd
+            apply Safe_at_packetCopy_bind _ _ _ _ (by rw [hd, hh.1]; exact hroom)
+            rw [Safe_at_modH]
+            refine ⟨by simp [hh.1], hh.2.1, ?_⟩
+            have := u16_add_toNat_le h.received (UInt16.ofNat (Gen.HALF_MAX_FIFO_THRESHOLD - 1))
+            have h1 : (UInt16.ofNat (Gen.HALF_MAX_FIFO_THRESHOLD - 1)).toNat = Gen.HALF_MAX_FIFO_THRESHOLD - 1 := by decide
+            show (h.received + UInt16.ofNat (Gen.HALF_MAX_FIFO_THRESHOLD - 1)).toNat ≤ cap
+            omega
+          · intro _; exact (Safe_at_pure _ _).mpr hh
         · intro _
-          apply SafeI_ite
+          apply Safe_at_ite
           · intro hs
             rw [if_pos (by rw [hh.1]; exact hfit')]
-            apply SafeI_bread_bind; intro d hd
-            apply SafeI_bind (s_packetCopy _ _ (by rw [hd]; omega)); intro _
-            safe_mod
-          · intro _; exact s_drainLoop _
+            apply Safe_at_bread_bind _ _ _ _ hh; intro d hd
+            apply Safe_at_packetCopy_bind _ _ _ _ (by rw [hd, hh.1]; omega)
+            rw [Safe_at_modH]
+            exact ⟨by simp [hh.1], hh.2.1, hfit'⟩
+          · intro _; exact (s_drainLoop _).s h hh
 
 theorem s_getRssi : SafeM cap fskOokGetRssi := by unfold fskOokGetRssi; safe0
-theorem s_rxCb : SafeM cap rxCallback := by unfold rxCallback; safe0
+/-- the receive callback, from a handle whose recorded length fits the buffer -/
+theorem at_rxCb (h : Handle) (hh : HInv cap h) (he : h.expected.toNat ≤ cap) :
+    (rxCallback h).Safe memBad (CbLen cap) (HInv cap) := by
+  unfold rxCallback
+  rw [Safe_at_getH_bind]
+  apply Safe_at_ite
+  · intro _
+    refine (Safe_at_cb _ _).mpr ⟨⟨⟨he, ?_⟩, hh⟩, fun _ hi => hi⟩
+    rw [List.length_take, hh.1]; omega
+  · intro _; exact (Safe_at_pure _ _).mpr hh
 theorem s_txCb : SafeM cap txCallback := by unfold txCallback; safe0
 
 theorem s_resetState : SafeM cap (modH resetState) := by
-  apply SafeI_modH; intro _ hi; exact hi
+  apply SafeI_modH; intro _ hi; exact ⟨hi.1, hi.2.1, Nat.zero_le _⟩
+
+macro "safe_fsk" : tactic => `(tactic| repeat (first
+    | exact s_batch _ _ | exact s_txCb | exact s_getRssi | exact s_resetState
+    | safe_step | safe_mod | safe_ubx | (apply DM.SafeI_ite <;> intro _) | split | dsimp only))
 
 theorem s_fskIrq (fuel : Nat) : SafeM cap (fskOokHandleInterrupt fuel) := by
   unfold fskOokHandleInterrupt
   apply SafeI_bind (SafeI_rread _); intro irq
   apply SafeI_bind (SafeI_swrite _ _); intro _
-  apply SafeI_getH_bind; intro h hh
-  repeat (first
-    | exact s_batch _ _ | exact s_rxCb | exact s_txCb | exact s_getRssi | exact s_resetState
-    | (rw [if_pos (by assumption)])
-    | safe_step | safe_mod | safe_ubx | (apply DM.SafeI_ite <;> intro _) | split | dsimp only
-    | (exfalso; omega))
+  constructor
+  intro h hh
+  rw [Safe_at_getH_bind]
+  apply Safe_at_ite
+  · intro _
+    -- PayloadReady: the callback relies on what a successful read leaves behind
+    refine (?_ : SafeM cap _).s h hh
+    apply SafeI_ite
+    · intro _; exact SafeI_bind (SafeI_swrite _ _) (fun _ => s_resetState)
+    · intro _
+      refine SafeI_attempt_bind_post
+        (fun r h' => r = .ok () → h'.expected.toNat ≤ h'.packet.length ∨ h'.expected = h'.received)
+        (s_batch _ _) (batch_post _ _) ?_
+      intro r h' hi' hq
+      cases r with
+      | ok u =>
+        refine Safe_at_bind_of h' (at_rxCb h' hi' ?_) (fun _ h2 hi2 => s_resetState.s h2 hi2)
+        rcases hq rfl with h1 | h1
+        · rw [← hi'.1]; exact h1
+        · rw [h1]; exact hi'.2.2
+      | error c => exact (SafeI_bind (SafeI_swrite _ _) (fun _ => s_resetState)).s h' hi'
+  · intro _
+    apply Safe_at_ite
+    · intro _; refine (?_ : SafeM cap _).s h hh; safe_fsk
+    · intro _
+      apply Safe_at_ite
+      · intro _
+        apply Safe_at_ite
+        · intro _; refine (?_ : SafeM cap _).s h hh; safe_fsk
+        · intro _
+          apply Safe_at_ite
+          · intro _
+            dsimp only
+            apply Safe_at_ite
+            · intro _; exact (Safe_at_pure _ _).mpr hh
+            · intro _
+              apply Safe_at_ite
+              · intro _; exact (Safe_at_pure _ _).mpr hh
+              · intro hle
+                rw [if_pos (by omega)]
+                apply Safe_at_bwrite_bind _ _ _ _ hh
+                rw [Safe_at_modH]
+                refine ⟨hh.1, hh.2.1, ?_⟩
+                generalize (if (h.expected.toNat : Int) - (h.received.toNat : Int) > ((Gen.HALF_MAX_FIFO_THRESHOLD - 1 : Nat) : Int) then
+                  u8 (Gen.HALF_MAX_FIFO_THRESHOLD - 1) else UInt8.ofNat (((h.expected.toNat : Int) - (h.received.toNat : Int)) % 256).toNat) = t at hle ⊢
+                have := u16_add_toNat_le h.received t.toUInt16
+                have ht : t.toUInt16.toNat = t.toNat := by simp
+                show (h.received + t.toUInt16).toNat ≤ cap
+                rw [← hh.1]; omega
+          · intro _; exact (Safe_at_pure _ _).mpr hh
+      · intro _; refine (?_ : SafeM cap _).s h hh; safe_fsk
 
 theorem s_loraRead : SafeM cap loraRxReadPayload := by
   unfold loraRxReadPayload
@@ -169,7 +256,12 @@ theorem s_loraIrq : SafeM cap loraHandleInterrupt := by
     · intro _
       apply SafeI_ite
       · intro _
-        repeat (first | exact s_loraGuard _ | exact s_rxCb | safe_step | safe_mod | dsimp only)
+        -- RxDone: the callback relies on the length a successful read recorded
+        refine SafeI_bind_post (fun r h' => r = .ok () → h'.expected.toNat ≤ h'.packet.length)
+          (s_loraGuard _) (loraGuard_post _) ?_
+        intro u h' hi' hq
+        refine Safe_at_bind_of h' (at_rxCb h' hi' (by rw [← hi'.1]; exact hq rfl)) (fun _ h2 hi2 => ?_)
+        exact (by safe_mod : SafeM cap _).s h2 hi2
       · intro _
         apply SafeI_ite
         · intro _
@@ -182,7 +274,7 @@ theorem s_loraIrq : SafeM cap loraHandleInterrupt := by
             | none => dsimp only; exact SafeI_pure _
             | some list =>
               dsimp only
-              obtain ⟨h1, h2⟩ := hh.2 list hf
+              obtain ⟨h1, h2⟩ := hh.2.1 list hf
               have hidx : (if h.curFreq ≥ h.freqLen then (0 : UInt8) else h.curFreq).toNat < list.length := by
                 split
                 · simp; omega
@@ -197,19 +289,22 @@ theorem s_loraIrq : SafeM cap loraHandleInterrupt := by
               repeat (first | exact s_setFrequency _ | safe_step | safe_mod | dsimp only)
           · intro _; exact SafeI_pure _
 
+theorem u16_ofNat_toNat_le (n : Nat) : (UInt16.ofNat n).toNat ≤ n := by
+  simp only [UInt16.toNat_ofNat']
+  exact Nat.mod_le _ _
+
 theorem s_withRemaining (dl : UInt16) (hdl : dl.toNat ≤ cap) : SafeM cap (fskOokTxWithRemaining dl) := by
   unfold fskOokTxWithRemaining
   dsimp only
-  apply SafeI_bind (by safe_mod); intro _
+  apply SafeI_bind (SafeI_modH _ (fun h0 hi => ⟨hi.1, hi.2.1, by
+    show (UInt16.ofNat (if dl.toNat > Gen.FIFO_SIZE_FSK then Gen.FIFO_SIZE_FSK else dl.toNat)).toNat ≤ cap
+    have := u16_ofNat_toNat_le (if dl.toNat > Gen.FIFO_SIZE_FSK then Gen.FIFO_SIZE_FSK else dl.toNat)
+    exact Nat.le_trans this (by split <;> omega)⟩)); intro _
   apply SafeI_getH_bind; intro h hh
   have : (if dl.toNat > Gen.FIFO_SIZE_FSK then Gen.FIFO_SIZE_FSK else dl.toNat) ≤ h.packet.length := by
     rw [hh.1]; split <;> omega
   rw [if_pos this]
   exact SafeI_bwrite _ _
-
-theorem u16_ofNat_toNat_le (n : Nat) : (UInt16.ofNat n).toNat ≤ n := by
-  simp only [UInt16.toNat_ofNat']
-  exact Nat.mod_le _ _
 
 theorem s_fskTx (data : List UInt8) : SafeM cap (fskOokTxSetForTransmission data) := by
   unfold fskOokTxSetForTransmission
@@ -315,7 +410,7 @@ theorem s_hopping (p : UInt8) (l : List UInt64) (len : UInt8) (hfit : len.toNat 
     apply SafeI_bind (SafeI_swrite _ _); intro _
     apply SafeI_modH
     intro h hi
-    refine ⟨hi.1, ?_⟩
+    refine ⟨hi.1, ?_, hi.2.2⟩
     intro l' hl'
     have : l' = l := by
       have : some l = some l' := hl'
@@ -327,11 +422,11 @@ theorem s_hopping (p : UInt8) (l : List UInt64) (len : UInt8) (hfit : len.toNat 
       exact UInt8.toNat_inj.mp (by simpa using e)
     exact ⟨by show 1 ≤ len.toNat; omega, hfit⟩
 
-theorem s_create : ∀ h, (Model.create cap h).Safe (α := Unit) memBad (HInv cap) := by
+theorem s_create : ∀ h, (Model.create cap h).Safe (α := Unit) memBad (CbLen cap) (HInv cap) := by
   intro h
   unfold Model.create
-  have hz : HInv cap (zeroHandle cap) := ⟨by simp [zeroHandle], fun l e => by simp [zeroHandle] at e⟩
-  have hf : HInv cap (freshHandle cap) := ⟨by simp [freshHandle], fun l e => by simp [freshHandle] at e⟩
+  have hz : HInv cap (zeroHandle cap) := ⟨by simp [zeroHandle], fun l e => by simp [zeroHandle] at e, Nat.zero_le _⟩
+  have hf : HInv cap (freshHandle cap) := ⟨by simp [freshHandle], fun l e => by simp [freshHandle] at e, Nat.zero_le _⟩
   have : SafeM cap (do let version ← rread Gen.REGVERSION
                        if version ≠ u8 Gen.SX127x_VERSION then fail Gen.SX127X_ERR_INVALID_VERSION else setH (freshHandle cap)) := by
     apply SafeI_bind (SafeI_rread _); intro v
